@@ -439,3 +439,35 @@ def unlisted_sharers(M, mb):
             d = m0.buffers[t.buffer].data
             if t.buffer and d is not None and len(d) and ti not in used: out.append((si, t.name.decode()))
     return out
+
+# ------------------------------------------------------------------------------------------------ parse_op_tensors / buffer_to_tensors against the specification written in Python
+def b2t_oracle_case(m, case):
+    """case: dict(subgraphs=[dict(tensor_buffers=[...], ops=[[outputs, inputs], ...])]); reference (from the contract text): for every subgraph in order, every operator in
+    order, outputs then inputs, every operand != -1: append the tensor to the list of its buffer; keys in order of first occurrence"""
+    S = m.schema; model = S.ModelT(); model.subgraphs = []; ref = {}
+    for si, g in enumerate(case['subgraphs']):
+        sg = S.SubGraphT(); sg.tensors = []; sg.operators = []
+        for t, b in enumerate(g['tensor_buffers']):
+            T = S.TensorT(); T.name = f's{si}t{t}'.encode(); T.buffer = int(b); sg.tensors.append(T)
+        for outs, ins in g['ops']:
+            op = S.OperatorT(); op.inputs = np.array(list(ins), np.int32); op.outputs = np.array(list(outs), np.int32); sg.operators.append(op)
+            want_parse = [sg.tensors[i] for i in list(outs) + list(ins) if i != -1]
+            try: got = m.tfu.parse_op_tensors(op, sg.tensors)
+            except Exception as e: return 'parse_op_tensors raised ' + describe(e)
+            if len(got) != len(want_parse) or any(a is not b for a, b in zip(got, want_parse)): return f'parse_op_tensors returned {[t.name for t in got]}, specification {[t.name for t in want_parse]}'
+            for T in want_parse: ref.setdefault(T.buffer, []).append(T)
+        model.subgraphs.append(sg)
+    try: got = m.tfu.buffer_to_tensors(model)
+    except Exception as e: return 'buffer_to_tensors raised ' + describe(e)
+    if list(got.keys()) != list(ref.keys()): return f'keys {list(got.keys())}, specification {list(ref.keys())}'
+    for b in ref:
+        if len(got[b]) != len(ref[b]) or any(x is not y for x, y in zip(got[b], ref[b])): return f'buffer {b}: {[t.name for t in got[b]]}, specification {[t.name for t in ref[b]]}'
+    return None
+def b2t_oracle_cases():
+    ops1 = [[list(o), list(i)] for o in ((), (0,), (1,)) for i in ((), (0,), (1, 0), (-1, 1), (1, 1))]
+    for bufs in ((0, 0), (0, 1), (1, 1), (2, 1)):
+        for a in ops1:
+            yield dict(subgraphs=[dict(tensor_buffers=list(bufs), ops=[a])])
+            for b in ops1[::3]:
+                yield dict(subgraphs=[dict(tensor_buffers=list(bufs), ops=[a, b])])
+                yield dict(subgraphs=[dict(tensor_buffers=list(bufs), ops=[a]), dict(tensor_buffers=[1, 0], ops=[b])])
